@@ -291,9 +291,13 @@ def sort_kwargs(kwargs: dict, ordering: Iterable[Iterable[str]]) -> dict:
 
 
 def prepare_label(s: str, convert_unicode: bool, to_snake_case: bool) -> str:
+    original = s
     if convert_unicode:
         s = unidecode(s)
     s = re.sub(r"\W", "", s)
+    if not to_snake_case and s[:1] != original[:1] and s[:1].islower():
+        # Leading characters were dropped after the name was camelized (i.e. "$ref"): class names stay capitalized
+        s = s[0].upper() + s[1:]
     if not ('a' <= s[0].lower() <= 'z'):
         if '0' <= s[0] <= '9':
             word = ones[int(s[0])]
